@@ -3,7 +3,7 @@
 (* the verif_hooks re-exports) is one line; the TLA+ definitions evaluated    *)
 (* with the big-number back end are the oracle.  Stateless: the only variable *)
 (* is the position in the trace.                                              *)
-EXTENDS Pool, Json, IOUtils
+EXTENDS Pool, Stable, Json, IOUtils
 
 Rec == ndJsonDeserialize(IOEnv.TRACE)
 VARIABLE l
@@ -42,8 +42,79 @@ WeightEv(ev) ==
      <<"C13.weight.non-decreasing-in-amount", ev.res = "ok" => ev.out.w11 \preceq ev.out.w12>>,
      <<"C13.weight.non-decreasing-in-duration", ev.res = "ok" => ev.out.w11 \preceq ev.out.w21>> >>
 
+\* ---- two-asset stableswap (C03): reserves normalised to 18 decimals, curve solved independently -------------
+Norm(x, dec) == x ** Pow(N(10), 18 - dec)
+GrossOf(o) == ((o.ret ++ o.sf) ++ o.pf) ++ o.bf
+\* rounding dust, in normalised units: the code truncates D and the offer side to the ask precision and solves y to one
+\* ask base unit; each is worth at most one ask unit times the local slope of the curve (how much y moves when x moves by
+\* one ask unit), which is measured on the independent curve itself
+Dust2(X1, D, amp, da) ==
+  LET U == Pow(N(10), 18 - da)
+      slope == (Ystar2(NMax(X1 -- U, One), D, amp) -- Ystar2(X1, D, amp)) // U
+  IN (N(4) ++ (N(4) ** slope)) ** U
+St2SwapEv(ev) ==
+  LET a == ev.args
+      X == Norm(a.op, a.do)  Y == Norm(a.ak, a.da)  amp == a.amp
+      inDomain == Pow(N(10), a.do) \preceq a.op /\ Pow(N(10), a.da) \preceq a.ak   \* one whole token of each
+      f == [p |-> a.fees.p, s |-> a.fees.s, b |-> a.fees.b]
+  IN IF ~inDomain \/ ev.res # "ok" THEN <<>>
+     ELSE LET D == Dstar2(X, Y, amp)
+              X1 == X ++ Norm(a.off, a.do)
+              g == GrossOf(ev.out)
+          IN << <<"C03.swap.proceeds<=ask-reserve", g \preceq a.ak>>,
+                <<"C03.swap.ask-reserve-not-below-the-curve",
+                   g \preceq a.ak => (Norm(a.ak -- g, a.da) ++ Dust2(X1, D, amp, a.da)) \succeq Ystar2(X1, D, amp)>>,
+                <<"C03.swap.fees=floor(share*gross)",
+                   ev.out.sf = MulFloor(g, f.s) /\ ev.out.pf = MulFloor(g, f.p) /\ ev.out.bf = MulFloor(g, f.b)>>,
+                <<"C03.swap.proceeds-monotone-in-offer", ev.res2 = "ok" => g \preceq GrossOf(ev.out2)>> >>
+St2DepEv(ev) ==
+  LET a == ev.args
+      A0 == Norm(a.pa, a.da)  B0 == Norm(a.pb, a.db)
+      A1 == Norm(a.pa ++ a.xa, a.da)  B1 == Norm(a.pb ++ a.xb, a.db)
+      inDomain == Pow(N(10), a.da) \preceq a.pa /\ Pow(N(10), a.db) \preceq a.pb
+  IN IF ~inDomain \/ ev.res # "ok" THEN <<>>
+     ELSE LET D0 == Dstar2(A0, B0, a.amp)  D1 == Dstar2(A1, B1, a.amp) IN
+          \* minted / S <= (D1 - D0) / D0, with one LP unit and one unit of D of slack; equal decimals and
+          \* unequal decimals are judged under different names (known finding S10 for the latter)
+          << <<IF a.da = a.db THEN "C03.deposit.mint<=proportional-increase-of-the-invariant"
+               ELSE "C03.deposit.mint<=proportional-increase-of-the-invariant(unequal-decimals)",
+               ((ev.out.minted -- One) ** D0) \preceq (a.S ** ((D1 -- D0) ++ Two))>> >>
+
+\* ---- three-asset curve (C04): raw base units -----------------------------------------------------------------
+Dust3(x1, uns, D, amp) ==
+  LET slope == Ystar3(NMax(x1 -- One, One), uns, D, amp) -- Ystar3(x1, uns, D, amp) IN N(3) ++ (N(3) ** slope)
+St3SwapEv(ev) ==
+  LET a == ev.args IN
+  IF ev.res # "ok" THEN <<>>
+  ELSE LET D == Dstar3(a.src, a.dst, a.uns, a.amp)
+           x1 == a.src ++ a.amt
+           dy == ev.out.dy
+       IN << <<"C04.swap.proceeds<=reserve", dy \preceq a.dst>>,
+             <<"C04.swap.reserve-not-below-the-curve",
+                dy \preceq a.dst => ((a.dst -- dy) ++ Dust3(x1, a.uns, D, a.amp)) \succeq Ystar3(x1, a.uns, D, a.amp)>>,
+             <<"C04.swap.there-and-back-never-profits", ev.res2 = "ok" => ev.out2.dx \preceq a.amt>> >>
+St3DepEv(ev) ==
+  LET a == ev.args IN
+  IF ev.res # "ok" THEN <<>>
+  ELSE LET D0 == Dstar3(a.pa, a.pb, a.pc, a.amp)
+           D1 == Dstar3(a.pa ++ a.xa, a.pb ++ a.xb, a.pc ++ a.xc, a.amp)
+       IN << <<"C04.deposit.mint<=proportional-increase-of-the-invariant",
+                ((ev.out.minted -- One) ** D0) \preceq (a.S ** ((D1 -- D0) ++ Two))>> >>
+AmpEv(ev) ==
+  LET a == ev.args  v == ev.out.amp IN
+  << <<"C04.amp.computed", ev.res = "ok">>,
+     <<"C04.amp.between-start-and-target",
+        ev.res = "ok" => (IF a.init \preceq a.target THEN a.init \preceq v /\ v \preceq a.target
+                          ELSE a.target \preceq v /\ v \preceq a.init)>>,
+     <<"C04.amp.moves-linearly-with-height", ev.res = "ok" => v = AmpAt(a.init, a.target, a.now, a.start, a.stop)>> >>
+
 EvChecks(ev) ==
   CASE ev.ev = "cpswap" -> CpEv(ev)
+    [] ev.ev = "st2swap" -> St2SwapEv(ev)
+    [] ev.ev = "st2dep" -> St2DepEv(ev)
+    [] ev.ev = "st3swap" -> St3SwapEv(ev)
+    [] ev.ev = "st3dep" -> St3DepEv(ev)
+    [] ev.ev = "amp" -> AmpEv(ev)
     [] ev.ev = "weight" -> WeightEv(ev)
     [] ev.ev = "cpround" -> CpRoundEv(ev)
     [] ev.ev = "maxspread" -> MaxSpreadEv(ev)
